@@ -60,7 +60,9 @@ def _kv(s):
 
 
 def _ws_regex(old):
-    toks = re.findall(r"[A-Za-z0-9_]+|\S", old)
+    """whitespace-insensitive exact-text pattern; `$1`..`$9` are wildcards (shortest match) that the
+    replacement may reuse — the matched repository text is carried over verbatim, never retyped."""
+    toks = re.findall(r"\$\d|[A-Za-z0-9_]+|\S", old)
     parts = []
     for k, t in enumerate(toks):
         if k:
@@ -69,8 +71,11 @@ def _ws_regex(old):
                 parts.append(r'\s+')
             else:
                 parts.append(r'\s*')
-        parts.append(re.escape(t))
-    return re.compile(''.join(parts))
+        if re.fullmatch(r'\$\d', t):
+            parts.append(f'(?P<g{t[1]}>.+?)')
+        else:
+            parts.append(re.escape(t))
+    return re.compile(''.join(parts), re.S)
 
 
 def count_clauses(spec_text):
@@ -298,7 +303,7 @@ class Generator:
             hits = list(rx.finditer(text))
             if len(hits) != rw['count']:
                 raise Undecided(f"{f.id}: rewrite {rw['rule']} expected {rw['count']} match(es) of {old[:60]!r}, found {len(hits)}")
-            text = rx.sub(lambda m: new, text)
+            text = rx.sub(lambda m: re.sub(r'\$(\d)', lambda g: m.group('g' + g.group(1)), new), text)
             bump(rw['rule'], len(hits))
         return text
 
@@ -372,9 +377,8 @@ class Generator:
         if (pr['nth'] or 1) > len(hits):
             raise Undecided(f"{f.id}: lost anchor: proof splice ordinal {pr['nth']} at {pr['anchor']!r}")
         m = hits[(pr['nth'] or 1) - 1]
+        # splice exactly at the anchor (not at the line boundary) so that the ghost text lands in the same
+        # block as the statement even when the statement sits inside a one-line block
         if pr['where'] == 'before':
-            k = body.rfind('\n', 0, m.start()) + 1
-            return body[:k] + text + '\n' + body[k:]
-        k = body.find('\n', m.end())
-        k = len(body) if k < 0 else k
-        return body[:k] + '\n' + text + body[k:]
+            return body[:m.start()] + '\n' + text + '\n' + body[m.start():]
+        return body[:m.end()] + '\n' + text + '\n' + body[m.end():]
